@@ -292,6 +292,9 @@ fn sweep(t: &mut Tape, full: bool) -> Scenario {
         sniff: false,
         epoch_liveness: false,
         synth: None,
+        neighbour: None,
+        record_rx: false,
+        alone_equal: false,
     }
 }
 
@@ -582,6 +585,9 @@ fn sweep_scenario(t: &mut Tape, wide: bool, tier: &str) -> Scenario {
         sniff: true,
         epoch_liveness: false,
         synth: None,
+        neighbour: None,
+        record_rx: false,
+        alone_equal: false,
     }
 }
 
@@ -596,6 +602,61 @@ fn g_sweep16_quick(t: &mut Tape) -> Scenario {
 }
 fn g_sweep16_thorough(t: &mut Tape) -> Scenario {
     sweep_scenario(t, true, "thorough")
+}
+
+// ---- C03: a second real tracer on the same host ----------------------------------------
+
+fn add_neighbour(t: &mut Tape, sc: &mut Scenario) {
+    use crate::scenario::{NeighbourCfg, Proto};
+    // only a raw receive socket sees the other tracer's ICMP traffic
+    sc.tracer.unprivileged = false;
+    if sc.tracer.proto == Proto::Udp && matches!(sc.tracer.ports, crate::scenario::Ports::None) {
+        sc.tracer.ports = crate::scenario::Ports::FixedSrc(sc.tracer.trace_id.max(1024));
+    }
+    sc.neighbour = Some(NeighbourCfg {
+        id_delta: 1 + t.draw(3) as u16,
+        other_target: sc.tracer.proto != Proto::Icmp || t.chance(500),
+        start_offset_ns: u64::from(t.draw(3000)) * 1000,
+    });
+}
+
+/// Two real tracers (identifiers pid, pid+i) over the full fault mix.
+fn g_neighbour(t: &mut Tape) -> Scenario {
+    let mut p = Profile::base();
+    p.cells.retain(|c| !c.unprivileged);
+    p.max_rounds = 6;
+    let mut sc = gen_scenario(t, &p);
+    add_neighbour(t, &mut sc);
+    sc
+}
+
+/// Two real tracers over a quiet lossless network with long rounds: the differential
+/// "as if alone" comparison applies.
+fn g_neighbour_quiet(t: &mut Tape) -> Scenario {
+    let mut p = Profile::base();
+    p.cells.retain(|c| !c.unprivileged);
+    p.delivery_faults = false;
+    p.late = false;
+    p.stalls = false;
+    p.hop_kinds = false;
+    p.target_kinds = false;
+    p.unreachable_hops = false;
+    p.route_change = false;
+    // per-packet load balancing follows the sequence numbers, which shift with the number
+    // of probes sent beyond the target (timing): one path only
+    p.ecmp = false;
+    p.max_path = 16;
+    p.max_rounds = 6;
+    let mut sc = gen_scenario(t, &p);
+    let ms = 1_000_000u64;
+    sc.tracer.max_round_ns = sc.tracer.max_round_ns.max(40 * ms);
+    sc.tracer.min_round_ns = sc.tracer.min_round_ns.min(sc.tracer.max_round_ns);
+    sc.faults.stall_pm = 0;
+    sc.faults.sock_pm = 0;
+    sc.faults.addr_in_use_pm = 0;
+    add_neighbour(t, &mut sc);
+    sc.alone_equal = true;
+    sc
 }
 
 // ---- synthetic round sequences (C05 / C10 / C15) ------------------------------------
@@ -800,6 +861,9 @@ fn fault_enum_base(cfg: u32) -> Scenario {
         sniff: false,
         epoch_liveness: false,
         synth: None,
+        neighbour: None,
+        record_rx: false,
+        alone_equal: false,
     }
 }
 
@@ -940,10 +1004,12 @@ pub fn registry() -> Vec<PropertyCheck> {
         PropertyCheck {
             id: "C03",
             level: "exploration",
-            rule: "C01's workload plus adversarial deliveries at every phase of a round: duplicates, all previous-round responses re-delivered, foreign quotations (one identity field off), responses naming never-sent sequences inside/outside the window, unrelated ICMP; oracle = ground truth + reference model of the round bookkeeping fed with genuine responses only; non-trivial/distinct as for C01",
+            rule: "C01's workload plus adversarial deliveries at every phase of a round: duplicates, all previous-round responses re-delivered, foreign quotations (one identity field off), responses naming never-sent sequences inside/outside the window, unrelated ICMP, and the whole received traffic of a second real tracer (identifier pid+i, same or other target) run over the same network, with a differential comparison against the run without it on quiet networks; oracle = ground truth + reference model of the round bookkeeping fed with genuine responses only; non-trivial/distinct as for C01",
             families: vec![
                 Family { name: "inject", gen: g_inject, oracle: oracle::c03, opts: opts_full(), quick_runs: 150_000, thorough_runs: 6_000_000, must_reach: &["handed.NeverSent", "handed.Foreign", "handed.Replay", "handed.Duplicate", "handed.Unrelated"], enum_dims: None },
                 Family { name: "inject-quiet", gen: g_inject_quiet, oracle: oracle::c03, opts: opts_full(), quick_runs: 60_000, thorough_runs: 2_000_000, must_reach: &[], enum_dims: None },
+                Family { name: "second-tracer", gen: g_neighbour, oracle: oracle::c03_neighbour, opts: opts_full(), quick_runs: 40_000, thorough_runs: 1_500_000, must_reach: &["reach.neighbour_datagram"], enum_dims: None },
+                Family { name: "second-tracer-quiet", gen: g_neighbour_quiet, oracle: oracle::c03_neighbour, opts: opts_full(), quick_runs: 30_000, thorough_runs: 1_000_000, must_reach: &["reach.neighbour_datagram"], enum_dims: None },
             ],
             assumptions: vec![ASSUME_SIM, ASSUME_CLOCK, "a forged response naming a sequence that the tracer did issue before the forgery arrived is indistinguishable from a genuine one; such runs are excluded"],
         },
